@@ -20,6 +20,15 @@ def main():
     try:
         mod = importlib.import_module("sa.rules." + prop.lower())
         mod.run(ctx)
+        # canaries: the generic obligation rules must fire on the broken twins of the fixture crate and stay silent on
+        # the correct ones, on every run (a rule that cannot fire any more must not pass vacuously)
+        from .canary import run_canaries
+        ok, det = run_canaries()
+        ctx.cov["canaries"] = det
+        ctx.count("CANARY", len(det))
+        if not ok:
+            ctx.violation("CANARY", "fixtures", ("fixtures/src/lib.rs", 0, ""),
+                          "canary failure: %r" % ([d for d in det if not d.get("ok")],))
     except Exception as e:   # fail closed
         traceback.print_exc()
         ctx.violation("CHECKER-ERROR", type(e).__name__, ("", 0, ""), "checker failed: %s" % e)
